@@ -7,6 +7,7 @@
    (smallm), dropd the test of remove_duplicates (small, |x| < zero_tol); both are abstract
    predicates here, so the theorems hold for every tolerance and every commutative ring. *)
 From Raptor Require Import Base.Sums Sparse.Defs Sparse.ConvertProofs Sparse.Spgemm Sparse.SpgemmProofs.
+From Coq Require Import Permutation.
 From Raptor Require Import Dist.Comm Dist.ParSpgemmPkg.
 From Raptor Require Import Dist.ParSpgemm Dist.ParSpgemmProofs.
 
@@ -219,6 +220,38 @@ Proof.
   - apply (par_mult_T_wf F zero one add mul sub opp Fth); assumption.
 Qed.
 
+(* the same for A^T B: the rows of the partial products travel back to their owners through the reverse exchange
+   (payload "row", reduction "append"); for every package that passes the reverse check of C03 (rev_ok) the owner
+   receives, up to order, exactly the rows `sentT` lists, which is the hypothesis of C06_par_mult_T.
+   Hypotheses on the column maps: duplicate free, cover the non-empty rows a rank has to send, and no rank lists its
+   own rows. *)
+Theorem C06_reverse_row_exchange_delivers (w : world) (ids colmaps : list (list nat))
+        (A : csc F) (B : csr F) (pk pm pc : list nat) r li i :
+  let tmp := fun s => par_mult_T_tmp F zero add mul smallm small A B pk pm pc s in
+  let tmps := map tmp (seq 0 (length pk)) in
+  rev_ok w ids colmaps = true -> r < length w -> length colmaps = length pk ->
+  li < length (nth r ids []) -> nth li (nth r ids []) 0 = i ->
+  (forall s, NoDup (nth s colmaps [])) ->
+  (forall s, s < length pk -> s <> r -> nth i (csr_rows (tmp s)) [] <> [] -> In i (nth s colmaps [])) ->
+  ~ In i (nth r colmaps []) ->
+  Permutation (fetchT_pkg F w colmaps tmps (length (nth r ids [])) r li)
+              (sentT F zero add mul smallm small A B pk pm pc r i).
+Proof.
+  intros tmp tmps Hok Hr Hlen Hli Hi Hnd Hcov Hown.
+  assert (Ht : length tmps = length pk) by (unfold tmps; rewrite map_length, seq_length; reflexivity).
+  assert (Hnth : forall s, s < length pk -> nth s tmps (mkCsr 0 0 []) = tmp s).
+  { intros s Hs. unfold tmps. rewrite (nth_indep _ (mkCsr 0 0 []) (tmp 0)) by (rewrite map_length, seq_length; exact Hs).
+    rewrite map_nth, seq_nth by exact Hs. reflexivity. }
+  eapply Permutation_trans.
+  - apply (fetchT_pkg_perm F w ids colmaps tmps r li i Hok Hr); try assumption.
+    + rewrite Ht. exact Hlen.
+    + intros s Hs Hne Hrow. rewrite Ht in Hs. rewrite (Hnth s Hs) in Hrow. apply Hcov; assumption.
+  - rewrite Ht. unfold sentT. fold tmp.
+    match goal with |- Permutation ?a ?b => replace a with b; [apply Permutation_refl|] end.
+    apply flat_map_ext_in'. intros s Hs. apply in_seq in Hs. rewrite Hnth by lia. reflexivity.
+Qed.
+
+
 Theorem C06_par_mult_T_exact_on_integers (isint : F -> Prop) fetchT (A : csc F) (B : csr F) (pk pm pc : list nat) i j :
   isint zero -> (forall x y, isint x -> isint y -> isint (add x y)) ->
   (forall x y, isint x -> isint y -> isint (mul x y)) ->
@@ -313,3 +346,4 @@ Print Assumptions C06_par_mult_T_exact_on_integers.
 Print Assumptions C06_par_galerkin_exact_on_integers.
 Print Assumptions C06_row_exchange_delivers_owner_rows.
 Print Assumptions C06_par_mult_through_package.
+Print Assumptions C06_reverse_row_exchange_delivers.
